@@ -270,12 +270,18 @@ def run(tier, seed, replay=None):
 
     # ---- corpus: witnesses of earlier findings run first; each must be rejected
     cdir = os.path.join(ROOT, 'corpus', PID)
-    corpus = sorted(f for f in (os.listdir(cdir) if os.path.isdir(cdir) else []) if f.endswith('.sam'))
+    corpus = sorted(f for f in (os.listdir(cdir) if os.path.isdir(cdir) else []) if f.endswith('.sam') or f.endswith('.json'))
     if corpus:
-        cm = [{'module': 'Main', 'kind': 'corpus:' + f, 'what': 'corpus/C06/' + f, 'site': [0, 0], 'edit': f} for f in corpus]
-        cin = [{'sources': {'Main': open(os.path.join(cdir, f)).read()}, 'entry': 'Main', 'mutated': 'Main', 'kind': m['kind'], 'what': m['what']}
-               for f, m in zip(corpus, cm)]
-        cres = run_jobs([{'id': i, 'sources': x['sources'], 'entries': ['Main'], 'compile': True} for i, x in enumerate(cin)])
+        # .sam: one module Main; .json: {"sources": {module: text}, "entry": m, "mutated": module holding the static error}
+        def cload(f):
+            if f.endswith('.json'):
+                return json.load(open(os.path.join(cdir, f)))
+            return {'sources': {'Main': open(os.path.join(cdir, f)).read()}, 'entry': 'Main', 'mutated': 'Main'}
+        loaded = [cload(f) for f in corpus]
+        cm = [{'module': x['mutated'], 'kind': 'corpus:' + f, 'what': 'corpus/C06/' + f, 'site': [0, 0], 'edit': f} for f, x in zip(corpus, loaded)]
+        cin = [{'sources': x['sources'], 'entry': x['entry'], 'mutated': x['mutated'], 'kind': m['kind'], 'what': m['what']}
+               for x, m in zip(loaded, cm)]
+        cres = run_jobs([{'id': i, 'sources': x['sources'], 'entries': [x['entry']], 'compile': True} for i, x in enumerate(cin)])
         lit = [(m, r, x) for m, r, x in zip(cm, cres, cin) if 'literal-2147483648' in m['edit']]
         rest = [(m, r, x) for m, r, x in zip(cm, cres, cin) if 'literal-2147483648' not in m['edit']]
         if rest:
